@@ -296,7 +296,7 @@ Definition make_directory (cwd : list name) (fs : tree) (p : ppath) : res tree :
 Definition upload_file (cwd : list name) (fs : tree) (dst' : ppath) (c : list Z) : res tree :=
   bind (make_directory cwd fs (pparent dst')) (fun fs1 => r_stor cwd fs1 dst' c).
 
-(* the code as written:
+(* HISTORICAL, the code before the fix of F1:
      if write_into: relative = destination.name / path.relative_to(source)
      else:          relative = path.relative_to(source.parent)
    rel = path.relative_to(source) *)
@@ -304,7 +304,7 @@ Definition relative_bug (write_into : bool) (dst' : ppath) (src_name : name) (re
   if write_into then pjoin (of_name (pname dst')) (mkp false rel)
   else pjoin (of_name src_name) (mkp false rel).
 
-(* the candidate fix (docs/fixes/C09-upload-destination.diff):
+(* the code now (fix: Client.upload places a directory's children under the destination):
      relative = destination / path.relative_to(source) *)
 Definition relative_fixed (dst' : ppath) (rel : list name) : ppath := pjoin dst' (mkp false rel).
 
@@ -361,10 +361,10 @@ Definition upload_gen (fixed : bool) (cwd : list name) (fs : tree) (src_name : n
 (* [fixed] is a fact about client.py: tools/py2v/gen_client_walks.py reads the computation of `relative`
    from the source on every run (Gen/ClientWalks.v upload_relative_fixed; any third form fails closed);
    Extract/ExC09.v and Props/C09.v instantiate it.  Both values are proved about in Proofs/ClientTree.v. *)
-(* the code as found (finding F1) *)
-Definition upload := upload_gen false.
-(* the code after docs/fixes/C09-upload-destination.diff *)
-Definition upload_fixed := upload_gen true.
+(* Client.upload (aioftp after "fix: Client.upload places a directory's children under the destination") *)
+Definition upload := upload_gen true.
+(* HISTORICAL: the code before that fix (finding F1); kept so that a revert is recognised and characterised *)
+Definition upload_old := upload_gen false.
 
 (* ------------------------------------------------------------------ *)
 (* Client.list(path, recursive=...)                                     *)
@@ -514,7 +514,7 @@ Definition run_clienttree (fixed : bool) (fn : Z) (a : sx) : sx :=
         (upload_gen fixed cwd fs (text_of_sx (nth_sx 2 a)) (tree_of_sx (nth_sx 3 a))
                 (ppath_of_sx (nth_sx 4 a)) (bool_of_sx (nth_sx 5 a)))
   | 1 => sx_of_res sx_of_tree
-        (upload_fixed cwd fs (text_of_sx (nth_sx 2 a)) (tree_of_sx (nth_sx 3 a))
+        (upload cwd fs (text_of_sx (nth_sx 2 a)) (tree_of_sx (nth_sx 3 a))
                       (ppath_of_sx (nth_sx 4 a)) (bool_of_sx (nth_sx 5 a)))
   | 2 => (* the specification: graft remote (cwd / dst [/ src.name]) src *)
       sx_of_tree
@@ -540,9 +540,9 @@ Definition run_clienttree (fixed : bool) (fn : Z) (a : sx) : sx :=
                          (entries (p_parts (ppath_of_sx (nth_sx 2 a))) t))
       | None => sx_err 550
       end
-  | 9 => (* upload as found (F1), whatever the source says now *)
+  | 9 => (* upload_old as found (F1), whatever the source says now *)
       sx_of_res sx_of_tree
-        (upload cwd fs (text_of_sx (nth_sx 2 a)) (tree_of_sx (nth_sx 3 a))
+        (upload_old cwd fs (text_of_sx (nth_sx 2 a)) (tree_of_sx (nth_sx 3 a))
                 (ppath_of_sx (nth_sx 4 a)) (bool_of_sx (nth_sx 5 a)))
   | 10 => (* which form of upload the source has: 1 = fixed *)
       sx_of_bool fixed
